@@ -14,6 +14,7 @@
   os.ReadDir / filepath.Walk order and HTTP are modelled-not-verified.
 -/
 import Cpf.Rules.Bundle
+import Cpf.Lemmas.JsonDoc
 import Cpf.Generated.Tables
 
 namespace Cpf.Props.C20
@@ -103,6 +104,49 @@ theorem C20 (dir : List File) : consume (produce dir) = (loadLocal dir).map some
     exact ext_cql_iff f.name
   rw [hfilter]
   simp [List.map_map, Function.comp_def, json_roundtrip]
+
+/-! ### the same statement on whole documents (bytes written by the script, bytes read by the loader) -/
+
+open Cpf.Rules.JsonDoc in
+theorem wf_bundleDoc (name : List Char) (dir : List File) : wf (bundleDoc name dir) = true := by
+  have h : ∀ (l : List File), wfElems (l.map (fun f => JV.obj [(kFileName, .str f.name), (kContent, .str f.content)])) = true := by
+    intro l
+    induction l with
+    | nil => rfl
+    | cons f r ih => simp only [List.map_cons, wfElems, wf, wfMembers, ih]; rfl
+  simp [bundleDoc, wf, wfMembers, h]
+
+open Cpf.Rules.JsonDoc in
+theorem consumeDoc_bundleDoc (name : List Char) (dir : List File) :
+    consumeDoc (bundleDoc name dir) = (dir.filter (fun f => ext f.name == ['.', 'c', 'q', 'l'])).map (·.content) := by
+  have hm1 : memberOf kFiles [(kRuleset, JV.str name), (kFiles,
+      JV.arr ((dir.filter (fun f => ext f.name == ['.', 'c', 'q', 'l'])).map (fun f => JV.obj [(kFileName, .str f.name), (kContent, .str f.content)])))]
+      = some (JV.arr ((dir.filter (fun f => ext f.name == ['.', 'c', 'q', 'l'])).map (fun f => JV.obj [(kFileName, .str f.name), (kContent, .str f.content)]))) := by
+    have : (kRuleset == kFiles) = false := by decide
+    simp [memberOf, this]
+  simp only [consumeDoc, bundleDoc, hm1]
+  generalize dir.filter (fun f => ext f.name == ['.', 'c', 'q', 'l']) = l
+  induction l with
+  | nil => rfl
+  | cons f r ih =>
+      have hm2 : memberOf kContent [(kFileName, JV.str f.name), (kContent, JV.str f.content)] = some (JV.str f.content) := by
+        have : (kFileName == kContent) = false := by decide
+        simp [memberOf, this]
+      simp only [List.map_cons, List.filterMap_cons, hm2]
+      rw [ih]
+
+/-- **C20 (documents)**: the bytes the bundling script writes for a directory (`json.MarshalIndent` of
+    `{ruleset, files:[{file_name, content}]}`), decoded as the hosted loader decodes them, give exactly the texts the
+    local loader reads from the same directory — same order, same multiplicities, byte-identical — for every directory
+    and every file content. -/
+theorem C20_document (name : List Char) (dir : List File) :
+    loadHosted (bundleBytes name dir) = some (loadLocal dir) := by
+  simp only [loadHosted, bundleBytes, Cpf.Rules.JsonDoc.decodeWs_encIndent _ (wf_bundleDoc name dir), Option.map_some,
+    consumeDoc_bundleDoc, loadLocal]
+  congr 2
+  apply List.filter_congr
+  intro f _
+  exact ext_cql_iff f.name
 
 /-- Regenerated: producer and consumer agree on the keys and on the types. -/
 theorem C20_keys :
